@@ -47,16 +47,16 @@ def le_guard(key, bound, name):
 
 
 def run(prog, chk):
-    buffer_tables(prog, chk)
-    remap_table(prog, chk)
-    element_split_table(prog, chk)
-    work_buffer_rule(prog, chk)
-    memreadn_table(prog, chk)
-    reencode_table(prog, chk)
-    element_bookkeeping_table(prog, chk)
-    refused_mutation(prog, chk)
-    append_to_raw_table(prog, chk)
-    _run(prog, chk)
+    chk.defer(buffer_tables, prog, chk)
+    chk.defer(remap_table, prog, chk)
+    chk.defer(element_split_table, prog, chk)
+    chk.defer(work_buffer_rule, prog, chk)
+    chk.defer(memreadn_table, prog, chk)
+    chk.defer(reencode_table, prog, chk)
+    chk.defer(element_bookkeeping_table, prog, chk)
+    chk.defer(refused_mutation, prog, chk)
+    chk.defer(append_to_raw_table, prog, chk)
+    chk.defer(_run, prog, chk)
 
 
 def refused_mutation(prog, chk):
@@ -737,7 +737,9 @@ def append_to_raw_table(prog, chk):
                                "(the payload is expanded first or the call refused)", floor=4)
     fn = prog.fn("KSI_TLV_appendNestedTlv", "tlv.c")
     tp, cp = [p["n"] for p in fn.params]
-    helpers = {f.name for f in prog.all_functions() if f.unit == "tlv.c" and f.static} - {"readFirstTlv"}
+    from ksirules.interp import unit_helpers
+    # every function of the unit the call reaches is evaluated with it (the expansion may be reached through the public list getter)
+    helpers = unit_helpers(prog, fn, exclude={"readFirstTlv"}, statics_only=False)
     for form, nested, dlen in (("empty, no list", 0, 0), ("payload of 4 octets (two elements of 2), no list", 0, 4), ("list with one element", Ptr("HAS"), 0),
                                ("payload of 2 octets (one element), no list", 0, 2)):
         made, lists, reads = [], {"HAS": [Ptr("OLD")]}, []
@@ -773,7 +775,7 @@ def append_to_raw_table(prog, chk):
         ov = {"KSI_TLVList_new": list_new, "KSI_TLVList_append": append, "readFirstTlv": read_first, "KSI_TLVList_free": lambda I, p, n, a: TOP,
               "KSI_TLV_free": lambda I, p, n, a: TOP, "KSI_free": lambda I, p, n, a: TOP, "KSI_ERR_clearErrors": lambda I, p, n, a: TOP}
         inputs = {tp: Ptr("T"), cp: Ptr("NEW"), "T->ctx": Ptr("ctx"), "T->nested": nested, "T->datap_len": dlen, "T->datap": Ptr("DAT") if dlen else 0}
-        I = Interp(fn, inputs=inputs, call_model=inline_model(prog, helpers, fallback=succeed_model(prog, ov)), on_unknown="stop", prog=prog, loop_bound=6)
+        I = Interp(fn, inputs=inputs, call_model=inline_model(prog, helpers - set(ov), fallback=succeed_model(prog, ov)), on_unknown="stop", prog=prog, loop_bound=6)
         paths = I.run()
         chk.paths += len(paths)
         inst = "appendNestedTlv[%s]" % form
